@@ -15,7 +15,7 @@ def inferFsm : FsmNode :=
                 (["__delitem__", "__iadd__", "__setitem__", "append", "clear", "extend", "insert", "pop", "remove", "reverse"], .mk (some "collections.abc.MutableSequence") [])]),
             (["__eq__", "__getitem__", "__ne__", "get", "items", "keys", "values"], .mk (some "collections.abc.Mapping") [
                 (["__delitem__", "__setitem__", "clear", "pop", "popitem", "setdefault", "update"], .mk (some "collections.abc.MutableMapping") [])]),
-            (["__and__", "__eq__", "__ge__", "__gt__", "__le__", "__lt__", "__ne__", "__or__", "__sub__", "__xor__", "isdisjoint"], .mk (some "builtins.set") [
+            (["__and__", "__eq__", "__ge__", "__gt__", "__le__", "__lt__", "__ne__", "__or__", "__sub__", "__xor__", "isdisjoint"], .mk (some "collections.abc.Set") [
                 (["__iand__", "__ior__", "__isub__", "__ixor__", "clear", "pop", "remove"], .mk (some "collections.abc.MutableSet") [])])])]),
     (["__iter__"], .mk (some "collections.abc.Iterable") [
         (["__next__"], .mk (some "collections.abc.Iterator") [
@@ -45,5 +45,8 @@ def inferBuiltinTable : List (String × String) := [
 def inferScalars : List String := ["builtins.bytes", "builtins.complex", "builtins.float", "builtins.int", "builtins.str"]
 
 def inferRootTupleMax : Nat := 10
+
+/-- identity of these tables (reported back by the driver: guards against stale build artifacts) -/
+def inferFingerprint : String := "6c2d7cac7f8f6ae2"
 
 end BearVerif.Extracted
